@@ -498,6 +498,11 @@ def shard(spec):
                 cases.append(([("x", "var"), ("=", "infix"), (op, "prefix"), ("y", "var")], rng.choice(CONTEXTS)))
             if op in g.postfix:
                 cases.append(([("x", "var"), ("+", "infix"), ("y", "var"), (op, "postfix")], "top"))
+                # a postfix operator directly followed by a prefix operator: the two operands are juxtaposed (implied multiplication)
+                pres = sorted(g.prefix)
+                for p_op in rng.sample(pres, min(6, len(pres))):
+                    cases.append(([("y", "var"), (op, "postfix"), (p_op, "prefix"), ("x", "var")], rng.choice(CONTEXTS)))
+                    cases.append(([("a", "var"), ("+", "infix"), ("y", "var"), (op, "postfix"), (p_op, "prefix"), ("x", "var"), ("+", "infix"), ("b", "var")], "top"))
         for _ in range(spec["n_random"]):
             cases.append((g.row(0, rng.randint(2, 7)), rng.choice(CONTEXTS)))
         for tokens, ctx in cases:
